@@ -258,6 +258,17 @@ func (e *Explorer) refStep(pre Ref, preDrv Drv, ev Event) (Ref, Drv, bool) {
 				drv.Axis[s.axisOrd[ev.Sym]] = int16(pi)
 			}
 		}
+		// an axis that switches CC-learning (positive direction only): held beyond half travel, released in the rest zone
+		// and on the other side, unchanged inside the 49-50 % band
+		if a := s.axisDesc[ev.Sym]; a != nil && a.Type == "action" && a.Action == "cc_learning" && a.ActNeg == "" {
+			v := KeyEmuValue(a, ev.Val)
+			switch {
+			case v.Cmp(rat(1, 2)) >= 0:
+				post.Learning = true
+			case v.Cmp(rat(49, 100)) < 0:
+				post.Learning = false
+			}
+		}
 		return post, drv, false
 	}
 	switch ev.Val {
